@@ -34,21 +34,38 @@ RULE = (
     "boolean predicates return a bool for every value of their declared types; objects a parser accepted go through every consumer within the same contract."
 )
 ASSUMPTIONS = [
-    "The contract is the one written in tests/fuzz_test.py (parsers) and CONTRIBUTING.md 'Every public function validates its inputs' / tests/bool_contract_test.py (predicates): only declared types are generated",
-    "script.parse, taproot.parse and BasicBlockFilter.parse document that they take the whole of the octets (no length of their own): the stream-position rule is not asked of them",
+    "The contract is the one written in tests/fuzz_test.py (parsers: return, or BTClibValueError/BTClibTypeError/BTClibRuntimeError and their subclasses) and CONTRIBUTING.md 'Every public function validates its inputs' / "
+    "tests/bool_contract_test.py (is_* and verify* answer a bool for every value of the declared types): only declared types are generated (Octets/String/BinaryData include str, bytearray and memoryview)",
+    "Refusals the library documents are inside the contract of these bool-returning functions: the check_* prefix (CONTRIBUTING.md: 'answers a bool and refuses what cannot be an answer': taproot.check_output_pubkey, "
+    "engine.script.check_pub_key) and musig2.partial_sig_verify(_) (docstring, after BIP327: a pubnonce or pubkey that is not a point is refused); a foreign exception from them is still a violation",
+    "script.parse, taproot.parse, BasicBlockFilter.parse and PsbtView document that they take the whole of the octets (no length of their own), and dsa.Sig.parse(strict=True) that a stream is held to the bytes rule "
+    "(no trailing byte, after Core's IsValidSignatureEncoding): the stream-position rule is not asked of them",
     "btclib.fetch (network transports) and btclib.hwi (external signer processes) are outside the table: they parse what a backend they start answers, not caller-supplied encodings",
-    "A call slower than the watchdog (30 s) is inconclusive unless it exceeds 60 s in three fresh processes",
+    "JSON values are those json.loads itself reads under the interpreter's default settings (nesting up to 900); every library call runs under the default recursion budget (1000 frames below the call), so a RecursionError is "
+    "judged as a caller with default settings would meet it",
+    "An object out of from_dict(check_validity=False) may hold fields of any JSON type: only its validating consumers (assert_valid(), and serialize/to_dict/... with check_validity=True) are asked to stay in the contract on it; objects out of wire/text parsers "
+    "and out of from_dict(check_validity=True) go through every consumer",
+    "A call slower than the watchdog (30 s, inputs are at most 2^17 bytes/characters) is inconclusive unless it exceeds 60 s in three fresh processes; calls slower than 5 s are tagged",
     "Each worker runs under RLIMIT_AS = 4 GiB so that an allocation sized by a hostile count surfaces as MemoryError instead of taking the machine down",
 ]
 CONTRACT = (BTClibValueError, BTClibTypeError, BTClibRuntimeError)
 
-try:  # an allocation on an attacker's count must fail in the worker, not in the machine
-    _soft, _hard = resource.getrlimit(resource.RLIMIT_AS)
-    _want = int(os.environ.get("C19_AS_GB", "4")) << 30
-    if _soft == resource.RLIM_INFINITY or _soft > _want:
-        resource.setrlimit(resource.RLIMIT_AS, (_want, _hard))
-except (ValueError, OSError):  # pragma: no cover
-    pass
+_LIMITED = [False]
+
+
+def _limit_memory_once() -> None:
+    """an allocation on an attacker's count must fail in the worker, not in the machine (set at the first guarded call, so that merely importing this module changes nothing)"""
+    if _LIMITED[0]:
+        return
+    _LIMITED[0] = True
+    try:
+        soft, hard = resource.getrlimit(resource.RLIMIT_AS)
+        want = int(os.environ.get("C19_AS_GB", "4")) << 30
+        if soft == resource.RLIM_INFINITY or soft > want:
+            resource.setrlimit(resource.RLIMIT_AS, (want, hard))
+    except (ValueError, OSError):  # pragma: no cover
+        pass
+
 
 WATCHDOG = float(os.environ.get("C19_WATCHDOG", "30"))
 CONFIRM = bool(os.environ.get("C19_CONFIRM_HANG"))
@@ -58,6 +75,10 @@ VERIF = os.path.dirname(os.path.dirname(os.path.abspath(__file__)))
 # Working aid (not used by the committed runs): C19_SKIP="sig1,sig2" turns the named root causes into tags so that the search goes on
 # past a confirmed finding. With the variable unset every finding is reported.
 SKIP = {x for x in os.environ.get("C19_SKIP", "").split(",") if x}
+
+
+def skipped(sig: str) -> bool:
+    return bool(SKIP) and (sig in SKIP or any(sig.startswith(x[:-1]) for x in SKIP if x.endswith("*")))
 
 
 def skippable(subname: str, fn):
@@ -119,6 +140,7 @@ class Result:
 def guarded(label: str, fn, *args, **kw) -> Result:
     """Call into the library: a return or a contract refusal comes back as a Result; RecursionError is a violation named after the
     entry point; anything else propagates to the runner, which buckets it by (exception type, innermost btclib frame)."""
+    _limit_memory_once()
     r = Result()
     limit = 60.0 if CONFIRM else WATCHDOG
     # the interpreter's DEFAULT recursion budget (1000 frames) from here down, whatever the harness raised it to for itself:
@@ -140,7 +162,7 @@ def guarded(label: str, fn, *args, **kw) -> Result:
     except RecursionError as e:
         signal.setitimer(signal.ITIMER_REAL, 0)
         sys.setrecursionlimit(rec_old)
-        raise Violation(f"RecursionError@{label}:{site_of(e)}", "input nested deeper than the interpreter's stack is answered with RecursionError, not a library refusal") from None
+        raise Violation(f"RecursionError@{label}", f"input nested deeper than the interpreter's default stack is answered with RecursionError (deepest library line {site_of(e)}), not a library refusal") from None
     except _Timeout:
         r.timeout = True
     except (Violation, HarnessError):
@@ -393,6 +415,56 @@ def check_bytes(case, subname="parsers_bytes"):
     return Outcome(nontrivial, tuple(tags))
 
 
+# ------------------------------------------------------------------------------------------------ 1b. exhaustive single edits of short encodings
+SINGLE_BYTES = (0x00, 0x01, 0x4C, 0x4E, 0x7F, 0x80, 0xFC, 0xFD, 0xFE, 0xFF)
+SINGLE_CS = (0xFD, 0xFFFF, 0x10000, 2**32 - 1, 2**32, 2**64 - 1)
+
+
+def single_units(tier: str) -> list:
+    return [e.key for e in T.BIN_EPS if e.kinds[0] not in HEAVY]
+
+
+def run_single_unit(key, col) -> None:
+    """One entry point, two short valid encodings (the shortest of eight seeded draws, at most 160 bytes), and EVERY single edit of them:
+    truncation at every offset; every byte set to each of ten boundary values; a CompactSize of each of six boundary values (minimal
+    spelling, and the 9-byte non-minimal spelling of the byte that was there) written over every offset. check_validity on and off."""
+    from hypothesis import HealthCheck, Phase, given, seed, settings
+
+    ep = T.BIN_BY_KEY[key]
+    kind = ep.kinds[0]
+    drawn = []
+    settings(max_examples=8, database=None, deadline=None, suppress_health_check=list(HealthCheck), phases=[Phase.generate])(seed(7)(given(S.BIN[kind][0]())(lambda c: drawn.append(c))))()
+    seeds = sorted({S.BIN[kind][1](c): c for c in drawn}.items(), key=lambda kv: (len(kv[0]) == 0, len(kv[0])))
+    seeds = [(b, c) for b, c in seeds if len(b) <= 160][:2] or [(seeds[0][0][:160], seeds[0][1])]
+    calls, distinct, tags = 0, set(), {}
+    for raw, c in seeds:
+        x = ep.variants[0]
+        if x == "seed":
+            x = _variant(ep, {"variant": 0}, {"kind": kind, "seed": c})
+        edits = [raw[:i] for i in range(len(raw))]
+        for i in range(len(raw)):
+            edits += [raw[:i] + bytes([b]) + raw[i + 1:] for b in SINGLE_BYTES if b != raw[i]]
+            edits += [raw[:i] + H.compact_size(v) + raw[i + 1:] for v in SINGLE_CS]
+            edits.append(raw[:i] + H.compact_size(raw[i], 9) + raw[i + 1:])
+        for data in edits:
+            for cv in ((True, False) if ep.has_cv else (True,)):
+                try:
+                    res = guarded(key, ep.call, data, cv, x)
+                except Violation as v:
+                    if not skipped(v.signature):
+                        raise
+                    tags["skipped:" + v.signature] = 1
+                    continue
+                calls += 1
+                if res.timeout:
+                    confirm_hang("single_edits", key, {"unit": key})
+                    continue
+                if res.ok or res.site not in baseline_sites(f"{key}|{x!r}|{cv}", lambda d: ep.call(d, cv, x)):
+                    distinct.add((data, cv))
+                tags["accepted" if res.ok else "refused"] = tags.get("accepted" if res.ok else "refused", 0) + 1
+    col.bulk(calls, len(distinct), sample={"entry_point": key, "seed_hex": seeds[0][0].hex()[:120], "edits": calls}, tags=tags)
+
+
 # ------------------------------------------------------------------------------------------------ 2. text parsers
 import base64  # noqa: E402
 
@@ -542,6 +614,96 @@ def check_text(case, subname="parsers_text"):
             else:
                 tags.append("refused-first-field")
     return Outcome(nontrivial, tuple(tags))
+
+
+SINGLE_CHARS = ("\x00", " ", "\n", "\x80", "\xdf", "\u0130", "\u0660", "\uff11", "\u3000", "\ud800", "\U0001f600", "(", ")", "[", "]", "{", "}", "<", ",", ";", "/", "'", "h", "*", "#", ":", "=", "%", "0", "9", "a", "g", "A", "l", "1", "-")
+
+
+def single_text_units(tier: str) -> list:
+    return [e.key for e in T.TEXT_EPS]
+
+
+def run_single_text_unit(key, col) -> None:
+    """One text entry point, two short valid strings of its first seed kind (the shortest of eight seeded draws, at most 150 characters), and EVERY single
+    edit: truncation and deletion at every offset, every character replaced by each of 36 (separators of every grammar, NUL, non-ASCII digits and
+    spaces, a length-changing case mapping, a lone surrogate, an astral character)."""
+    from hypothesis import HealthCheck, Phase, given, seed, settings
+
+    ep = T.TEXT_BY_KEY[key]
+    kind = ep.kinds[0]
+    drawn = []
+    settings(max_examples=8, database=None, deadline=None, suppress_health_check=list(HealthCheck), phases=[Phase.generate])(seed(7)(given(S.TXT[kind][0]())(lambda c: drawn.append(c))))()
+    texts = sorted({S.TXT[kind][1](c) for c in drawn}, key=lambda t: (len(t) == 0, len(t)))
+    texts = [t for t in texts if len(t) <= 150][:2] or [texts[0][:150]]
+    calls, distinct, tags = 0, set(), {}
+    x = ep.variants[0]
+    if x == "seed":
+        x = 0
+    for raw in texts:
+        edits = [raw[:i] for i in range(len(raw))] + [raw[:i] + raw[i + 1:] for i in range(len(raw))]
+        for i in range(len(raw)):
+            edits += [raw[:i] + ch + raw[i + 1:] for ch in SINGLE_CHARS if ch != raw[i]]
+        for text in edits:
+            arg = text.split("\n") if kind == "slip39_group" and "mnemonics" in key else text
+            try:
+                res = guarded(key, ep.call, arg, True, x)
+            except Violation as v:
+                if not skipped(v.signature):
+                    raise
+                tags["skipped:" + v.signature] = 1
+                continue
+            calls += 1
+            if res.timeout:
+                confirm_hang("single_text_edits", key, {"unit": key})
+                continue
+            if res.ok or res.site not in baseline_sites(f"T|{key}|{x!r}", lambda d: ep.call(d.hex() if len(d) % 3 else d.decode("latin-1"), True, x)):
+                distinct.add(text)
+            tags["accepted" if res.ok else "refused"] = tags.get("accepted" if res.ok else "refused", 0) + 1
+    col.bulk(calls, len(distinct), sample={"entry_point": key, "seed_text": texts[0][:120], "edits": calls}, tags=tags)
+
+
+BOMB_SHAPES = {"bomb_desc": S.BOMBS_DESC, "bomb_ms": S.BOMBS_MS, "bomb_path": S.BOMBS_PATH, "bomb_uri": S.BOMBS_URI, "bomb_words": S.BOMBS_WORDS}
+
+
+_TIER = ["quick"]
+
+
+def tier_of_run() -> str:
+    return os.environ.get("C19_TIER", _TIER[0])
+
+
+def bomb_units(tier: str) -> list:
+    os.environ["C19_TIER"] = tier  # the workers are forked after the units are listed: they inherit it
+    return [[kind, shape] for kind, shapes in BOMB_SHAPES.items() for shape in range(len(shapes))]
+
+
+def run_bomb_unit(unit, col) -> None:
+    """one nesting/repetition shape of one grammar, at every size (10 .. 10^4, capped at 2^17 characters), unmutated, through every entry point that reads the grammar"""
+    kind, shape = unit
+    n_calls = n_deep = 0
+    tags: dict = {}
+    for n in (1000, 10000) if tier_of_run() == "quick" else S.BOMB_N:
+        text = S.TXT[kind][1]([shape, n])
+        for ep in text_eps_for(kind):
+            for x in ep.variants[: 1 if tier_of_run() == "quick" else 2]:
+                arg = text.split("\n") if "mnemonics" in ep.key else text
+                try:
+                    res = guarded(ep.key, ep.call, arg, True, x)
+                except Violation as v:
+                    if not skipped(v.signature):
+                        raise
+                    tags["skipped:" + v.signature] = 1
+                    continue
+                n_calls += 1
+                if res.timeout:
+                    confirm_hang("nesting_bombs", ep.key, {"unit": unit})
+                    tags["inconclusive-timeout"] = tags.get("inconclusive-timeout", 0) + 1
+                    continue
+                if res.elapsed > 5:
+                    tags[f"slow>5s: {ep.key} on {kind}[{shape}] n={n} ({len(text)} chars): {res.elapsed:.0f}s"] = 1
+                n_deep += 1 if res.ok or n >= 400 else 0
+                tags["accepted" if res.ok else "refused"] = tags.get("accepted" if res.ok else "refused", 0) + 1
+    col.bulk(n_calls, n_deep, sample={"grammar": kind, "shape": shape, "example": S.TXT[kind][1]([shape, 10])[:200]}, tags=tags)
 
 
 # ------------------------------------------------------------------------------------------------ 3. JSON (from_dict and the decode_* helpers)
@@ -741,8 +903,8 @@ def spelling_units(tier: str) -> list:
     for name in CP.TABLE_NAMES:
         _, get_args, cats = CP._table()[name]
         for pos, (cat, v) in enumerate(zip(cats, get_args(fx))):
-            if cat == "bytes" or not isinstance(v, (bytes, str)):
-                continue
+            if cat in ("bytes", "context") or not isinstance(v, (bytes, str)):
+                continue  # "context" is declared a plain str (a name, not a String): bytes there are an undeclared type
             forms = ("bytearray", "memoryview", "hex", "HEX", "hex ") if isinstance(v, bytes) else ("bytes", "bytearray", "memoryview")
             units += [[name, pos, form, backend] for form in forms for backend in (0, 1)]
     return units
@@ -761,7 +923,12 @@ def run_spelling_unit(unit, col) -> None:
     before = is_libsecp256k1_serving()
     set_libsecp256k1_serving(serving=bool(backend))
     try:
-        res = guarded(name, get_fn(fx), *args)  # a foreign exception propagates: the runner names it after the innermost library frame
+        res = guarded(name, get_fn(fx), *args)  # a foreign exception becomes a violation named after the innermost library frame
+    except Violation as v:
+        if not skipped(v.signature):
+            raise
+        col.bulk(1, 0, tags={"skipped:" + v.signature: 1})
+        return
     finally:
         set_libsecp256k1_serving(serving=before)
     if not res.ok:
@@ -778,6 +945,8 @@ import inspect  # noqa: E402
 PREV_SPKS = ("76a914" + "11" * 20 + "88ac", "0014" + "33" * 20, "5120" + "55" * 32, "a914" + "22" * 20 + "87", "0020" + "44" * 32, "", "6a", "51", "5121" + "0279be667ef9dcbbac55a06295ce870b07029bfcdb2dce28d959f2815b16f81798" + "51ae",
              "21" + "0279be667ef9dcbbac55a06295ce870b07029bfcdb2dce28d959f2815b16f81798" + "ac", "5120" + "79be667ef9dcbbac55a06295ce870b07029bfcdb2dce28d959f2815b16f81798", "51024e73", "6001ff", "ac")
 HASH_TYPES = (0, 1, 2, 3, 0x81, 0x82, 0x83, 4, 0x80, 0xFF, 0x100, -1, 2**32)
+# witness elements a peer chooses (what tests/fuzz_test.py's WITNESS_STACKS draws, with the bytes BIP341/342 give a meaning to): empty, annex-tagged, control-block- and signature-sized
+WITNESS_ITEMS = ("", "50", "5000", "00", "51", "c0" + "79be667ef9dcbbac55a06295ce870b07029bfcdb2dce28d959f2815b16f81798", "c1" + "11" * 64, "c0" + "11" * 31, "ab" * 64, "ab" * 65, "20" + "aa" * 32 + "ac", "ff" * 33)
 SKIP_METHODS = {"parse", "from_dict", "from_tx", "b64decode", "b58decode", "from_address", "from_description", "from_block", "sort_inputs", "sort_outputs", "from_descriptor", "from_account", "from_accounts"}
 CONSUMER_KINDS = ["tx", "tx", "tx", "block", "header", "psbt", "psbt", "psbt", "psbt_in", "psbt_out", "witness", "txin", "txout", "outpoint", "xkey", "der_sig", "ssa_sig", "bms_sig", "gcs_filter", "key_origin", "envelope", "ms_script"] + \
     [k for k in BIN_KINDS if k.startswith("p2p:") and k not in HEAVY]
@@ -789,7 +958,8 @@ CONSUMER_JSON = [n for n in JSON_NAMES if "from_dict" in n and "script_from_dict
 def consumer_case(draw):
     src = draw(st.integers(0, 9))
     extra = {"prev": draw(st.lists(st.integers(0, len(PREV_SPKS) - 1), min_size=0, max_size=4)), "amt": draw(st.sampled_from([0, 1, 546, 10**8, 21 * 10**14, 2**63 - 1])), "ht": draw(st.integers(0, len(HASH_TYPES) - 1)),
-             "flags": draw(st.one_of(st.just(None), st.integers(0, 2**21 - 1))), "idx": draw(st.sampled_from([0, 0, 1, 2, 5, 2**31 - 1, 2**31, -1]))}
+             "flags": draw(st.one_of(st.just(None), st.integers(0, 2**21 - 1))), "idx": draw(st.sampled_from([0, 0, 1, 2, 5, 2**31 - 1, 2**31, -1])),
+             "wit": draw(st.one_of(st.just(None), st.lists(st.sampled_from(WITNESS_ITEMS), max_size=5)))}
     if src <= 5:
         c = draw(bytes_case(CONSUMER_KINDS))
         c["rounds"] = [r[:4] + r[4:7] for r in c["rounds"][:4]]  # few, shallow mutations: what a parser ACCEPTS is what feeds the consumers
@@ -831,7 +1001,7 @@ def _touch(obj, label: str, tags: list, checked_only: bool = False) -> None:
         elif "check_validity" in sig.parameters:
             variants = [((), {"check_validity": False}), ((), {"check_validity": True})]
         else:
-            variants = [((), {})] if not checked_only or name.startswith("assert_") else []
+            variants = [((), {})] if not checked_only or name == "assert_valid" else []
         if checked_only:
             variants = [v for v in variants if v[1].get("check_validity", True)]
         for a, kw in variants:
@@ -885,8 +1055,13 @@ def _consume(obj, extra, tags: list, checked_only: bool = False) -> None:
     flags = None if extra["flags"] is None else ScriptFlag(extra["flags"])
     if isinstance(obj, Tx):
         n = len(obj.vin)
-        for count in {n, max(n - 1, 0)}:
-            prevouts = _prevouts(extra, count)
+        if extra.get("wit") is not None and n:
+            # the one field of a spend the consensus code indexes into before it has validated anything: the witness, replaced by a drawn stack
+            from btclib.script.witness import Witness
+
+            obj.vin[min(max(extra["idx"], 0), n - 1)].script_witness = Witness([bytes.fromhex(w) for w in extra["wit"]], check_validity=False)
+        for count, taproot in ((n, False), (n, True), (max(n - 1, 0), False)):
+            prevouts = _prevouts(dict(extra, prev=[2, 10]) if taproot else extra, count)
             for i in sorted({0, n - 1, extra["idx"]} if n else {0}):
                 guarded("sig_hash.from_tx", sig_hash.from_tx, prevouts, obj, i, ht)
                 guarded("engine.verify_input", verify_input, prevouts, obj, i, flags)
@@ -1019,8 +1194,8 @@ def run_ep_unit(unit, col) -> None:
     from vlib.runner import derive_seed
 
     fam, key = unit
-    n = 20 if fam == "json" or "psbt" in key.lower() else 30
-    stats = {"calls": 0, "acc": 0, "deep": 0, "crash": 0, "sites": set()}
+    n = 12 if fam == "json" or "psbt" in key.lower() else 20
+    stats = {"calls": 0, "acc": 0, "deep": 0, "crash": 0, "sites": set(), "distinct": set()}
 
     if fam == "bin":
         ep = T.BIN_BY_KEY[key]
@@ -1038,7 +1213,7 @@ def run_ep_unit(unit, col) -> None:
                 data = H.apply_bytes(data, rnd["muts"] or [packed[1] * 7919 + 1], other)  # the census always mutates
                 x = _variant(ep, rnd, case)
                 cv = rnd["cv"] if ep.has_cv else True
-                _tally(stats, ep.key, lambda: ep.call(data, cv, x), f"{ep.key}|{x!r}|{cv}", lambda d: ep.call(d, cv, x))
+                _tally(stats, ep.key, lambda: ep.call(data, cv, x), f"{ep.key}|{x!r}|{cv}", lambda d: ep.call(d, cv, x), (data, repr(x), cv))
     elif fam == "txt":
         ep = T.TEXT_BY_KEY[key]
         kinds = [k for k in TEXT_KINDS if ep in text_eps_for(k)]
@@ -1058,7 +1233,8 @@ def run_ep_unit(unit, col) -> None:
                     text = text + "#" + S.desc_checksum(text)
                 x = ep.variants[(r[1] >> 4) % len(ep.variants)]
                 arg = text.split("\n") if case["kind"] == "slip39_group" and "mnemonics" in ep.key else text
-                _tally(stats, ep.key, lambda: ep.call(arg, bool(r[1] & 1) if ep.has_cv else True, x), f"T|{ep.key}|{x!r}", lambda d: ep.call(d.hex() if len(d) % 3 else d.decode("latin-1"), True, x))
+                _tally(stats, ep.key, lambda: ep.call(arg, bool(r[1] & 1) if ep.has_cv else True, x), f"T|{ep.key}|{x!r}", lambda d: ep.call(d.hex() if len(d) % 3 else d.decode("latin-1"), True, x),
+                       (text, repr(x), bool(r[1] & 1)))
     else:
         fn = T.JSON_EPS[key]
         strat = st.fixed_dictionaries({"seed": JSON_SEEDS[key][0](), "rounds": st.lists(st.tuples(st.booleans(), H.json_muts(1, 3)).map(lambda t: [int(t[0]), *t[1]]), min_size=1, max_size=8)})
@@ -1070,7 +1246,7 @@ def run_ep_unit(unit, col) -> None:
                 return
             for r in case["rounds"]:
                 arg = _objectify(key, H.apply_json(tree, r[1:]))
-                _tally(stats, key, lambda: fn(arg, check_validity=bool(r[0])), None, None)
+                _tally(stats, key, lambda: fn(arg, check_validity=bool(r[0])), None, None, (case["seed"] if isinstance(case["seed"], (int, str)) else canon_(case["seed"]), tuple(r)))
 
     test = settings(max_examples=n, database=None, deadline=None, suppress_health_check=list(HealthCheck), phases=[Phase.generate])(
         seed(derive_seed(int(os.environ.get("VERIF_SEED", "1") or "1"), "census", key))(given(strat)(one)))
@@ -1083,10 +1259,15 @@ def run_ep_unit(unit, col) -> None:
         tags[f"GENERATOR-FLAG {bucket} ({stats['acc']}/{calls}): {key}"] = 1
     if stats["crash"]:
         tags[f"{fam}: entry points with a crash in the census"] = 1
-    col.bulk(stats["calls"], stats["acc"] + stats["deep"], sample={"entry_point": key, "calls": stats["calls"], "accepted": stats["acc"], "refusal_lines": sorted(stats["sites"])[:12]}, tags=tags)
+    col.bulk(stats["calls"], len(stats["distinct"]), sample={"entry_point": key, "calls": stats["calls"], "accepted": stats["acc"], "refusal_lines": sorted(stats["sites"])[:12]}, tags=tags)
 
 
-def _tally(stats, label, thunk, base_key, base_call) -> None:
+def canon_(x) -> str:
+    return json.dumps(x, sort_keys=True, default=str)
+
+
+def _tally(stats, label, thunk, base_key, base_call, ident) -> None:
+    """ident: what makes the call distinct (input, variant, check_validity); non-trivial calls are counted once per ident"""
     stats["calls"] += 1
     try:
         res = guarded(label, thunk)
@@ -1098,20 +1279,57 @@ def _tally(stats, label, thunk, base_key, base_call) -> None:
         return
     if res.ok:
         stats["acc"] += 1
+        stats["distinct"].add(hashlib.sha256(repr(ident).encode("utf-8", "surrogatepass")).digest()[:10])
     elif not res.timeout:
         stats["sites"].add(res.site)
         if base_key is not None and res.site not in baseline_sites(base_key, base_call):
             stats["deep"] += 1
+            stats["distinct"].add(hashlib.sha256(repr(ident).encode("utf-8", "surrogatepass")).digest()[:10])
 
 
 def not_driven_units(tier: str) -> list:
     return sorted(T.NOT_DRIVEN)
 
 
+def seed_units(tier: str) -> list:
+    return [k for k in BIN_KINDS if k not in HEAVY and k not in ("var_bytes", "gcs_filter")]
+
+
+UNCHECKED_ONLY = {"tx", "txin", "txout", "witness", "script", "point", "point_x", "point_any", "xkey", "der_sig", "ssa_sig", "bms_sig", "envelope", "borromean", "var_int", "bits", "leaf_script", "taproot_tree", "psbt",
+                  "psbt_in", "psbt_out", "header", "outpoint", "block", "p2p:TxPayload", "p2p:PrefilledTransaction", "p2p:BlockTxn", "p2p:CmpctBlock", "p2p:BlockPayload"}
+
+
+def run_seed_unit(kind, col) -> None:
+    """generator soundness: four unmutated seeds of the kind are accepted by every parser the kind is the natural input of
+    (with check_validity=True, or -- for the kinds that deliberately include encodings only an unchecked parse takes -- with it off)"""
+    from hypothesis import HealthCheck, Phase, given, seed, settings
+
+    eps = [e for e in T.bin_eps_for(kind) if e.kinds[0] == kind]
+    n = [0]
+    distinct = set()
+
+    def one(c):
+        data = S.BIN[kind][1](c)
+        distinct.add(data)
+        for ep in eps:
+            x = ep.variants[0]
+            if x == "seed":
+                x = _variant(ep, {"variant": 0}, {"kind": kind, "seed": c})
+            res = guarded(ep.key, ep.call, data, True, x)
+            if not res.ok and kind in UNCHECKED_ONLY and ep.has_cv:
+                res = guarded(ep.key, ep.call, data, False, x)
+            n[0] += 1
+            if not res.ok:
+                raise Violation(f"valid-encoding-refused@{ep.key}", f"a seed of kind {kind} ({data.hex()[:200]}) is refused: {res.exc} at {res.site}")
+
+    settings(max_examples=4, database=None, deadline=None, suppress_health_check=list(HealthCheck), phases=[Phase.generate])(seed(19)(given(S.BIN[kind][0]())(one)))()
+    col.bulk(n[0], len(distinct) * len(eps), sample={"kind": kind, "entry_points": [e.key for e in eps]})
+
+
 # ------------------------------------------------------------------------------------------------ model validation
 def validate_models() -> None:
-    """The table is complete; every seed kind is accepted unmutated by its own parser; the re-framers reproduce public vectors;
-    every predicate fixture answers True."""
+    """The table is complete; the re-framers (descriptor checksum, bech32(m), base58check, BIP39) reproduce public vectors;
+    every predicate fixture answers True. (Seed validity is the seed_soundness sub-check.)"""
     T.assert_table_complete()
     # 1. checksum / armour models against public vectors
     with open(os.path.join(VERIF, "vectors", "descriptors", "descriptor_checksums.json")) as f:
@@ -1134,38 +1352,6 @@ def validate_models() -> None:
     for x in S.CORPUS["xkeys"] + S.CORPUS["wifs"]:
         if S.reframe_b58check(x, [], b"") != x:
             raise HarnessError(f"base58check model: {x}")
-    # 2. seeds are valid: the first example of every kind parses, with check_validity=True where it can be true
-    from hypothesis import HealthCheck, Phase, given, seed, settings
-
-    pow_bound = {"block", "p2p:BlockPayload"}
-    for kind in BIN_KINDS:
-        if kind in HEAVY:
-            continue
-        eps = [e for e in T.bin_eps_for(kind) if e.kinds[0] == kind]
-        bad = []
-
-        def one(c):
-            data = S.BIN[kind][1](c)
-            for ep in eps:
-                x = ep.variants[0]
-                if x == "seed":
-                    x = _variant(ep, {"variant": 0}, {"kind": kind, "seed": c})
-                try:
-                    ep.call(data, kind not in pow_bound and not (kind == "block"), x)
-                except CONTRACT as e:
-                    if kind in ("tx", "txin", "txout", "witness", "script", "point", "xkey", "der_sig", "ssa_sig", "bms_sig", "envelope", "borromean", "var_int", "bits", "leaf_script", "taproot_tree", "psbt", "psbt_in",
-                                "psbt_out", "header", "outpoint", "p2p:TxPayload", "p2p:PrefilledTransaction", "p2p:BlockTxn", "p2p:CmpctBlock"):
-                        # these kinds deliberately include encodings only check_validity=False accepts (e.g. zero inputs, off-curve x): ask again unchecked
-                        try:
-                            ep.call(data, False, x)
-                            continue
-                        except CONTRACT as e2:
-                            e = e2
-                    bad.append(f"{kind} -> {ep.key}: {type(e).__name__}: {e}")
-
-        settings(max_examples=6, database=None, deadline=None, suppress_health_check=list(HealthCheck), phases=[Phase.generate])(seed(19)(given(S.BIN[kind][0]())(one)))()
-        if bad and kind not in ("var_bytes", "gcs_filter"):
-            raise HarnessError(f"seed kind not accepted by its own parser: {bad[:2]}")
     # 3. predicates: every fixture answers True
     fx = CP.fixtures()
     for name, (get_fn, get_args, cats) in CP._table().items():
@@ -1174,31 +1360,51 @@ def validate_models() -> None:
 
 
 SUBCHECKS = [
+    SubCheck("seed_soundness", None, "every binary seed kind, unmutated, is accepted by the parsers it is the natural input of (the generators produce valid encodings)", units=seed_units, run_unit=run_seed_unit, exhaustive=True),
     SubCheck("parsers_bytes", skippable("parsers_bytes", check_bytes), "every binary parse/decode entry point x valid encodings under stacked mutations (bytes, BytesIO+tail, hex str, bytearray, memoryview; check_validity on/off; every extra-argument variant): "
              "returns or refuses within the contract; BytesIO position exact. Non-trivial: accepted, or refused at a source line a structure-blind input (empty / uniform random) does not reach",
-             bytes_case, quick=6000, thorough=80000, max_buckets=6),
+             bytes_case, quick=6000, thorough=80000, max_buckets=4),
+    SubCheck("parsers_bytes_blocks", skippable("parsers_bytes_blocks", lambda case: check_bytes(case, "parsers_bytes_blocks")), "the same as parsers_bytes over BlockPayload.parse with real mainnet blocks (up to 1 MB, 1866 transactions) as seeds: bounded separately for its cost",
+             lambda: bytes_case(["p2p:BlockPayload"]), quick=32, thorough=400, max_buckets=3, shards=4),
+    SubCheck("single_edits", None, "exhaustive: every binary entry point x two short valid encodings (<= 160 bytes) x EVERY single edit: truncation at every offset, every byte set to each of 0x00 0x01 0x4c 0x4e 0x7f 0x80 0xfc "
+             "0xfd 0xfe 0xff, a CompactSize of 0xfd, 0xffff, 0x10000, 2^32-1, 2^32, 2^64-1 and the non-minimal 9-byte spelling written over every offset; check_validity on and off. Non-trivial: distinct inputs accepted or refused "
+             "beyond the first field", units=single_units, run_unit=run_single_unit, exhaustive=True),
     SubCheck("parsers_text", skippable("parsers_text", check_text), "every text decoder (addresses, WIF, extended keys, descriptors, miniscript, mnemonics of three schemes, derivation paths, key origins, BIP21 URIs, base64 armours) and every octets "
              "parser through its hex-string form x valid strings under stacked text mutations (separators, control/format characters, lone surrogates, length-changing case mappings, non-ASCII digits, edge numbers, word edits, "
              "bracket edits, 50..10^4-fold repetitions), nesting bombs of every grammar up to 10^4 deep, and re-framed payloads (base58check / bech32(m) / descriptor checksum / base64 recomputed after mutating what they protect); "
-             "str, bytes, bytearray, memoryview where String is declared. Non-trivial as for parsers_bytes", text_case, quick=6000, thorough=80000, max_buckets=8),
+             "str, bytes, bytearray, memoryview where String is declared. Non-trivial as for parsers_bytes", text_case, quick=6000, thorough=80000, max_buckets=4),
+    SubCheck("single_text_edits", None, "exhaustive: every text entry point x two short valid strings (<= 150 characters) x EVERY single edit: truncation and deletion at every offset, every character replaced by each of 36 "
+             "(grammar separators, NUL, newline, non-ASCII digits and spaces, U+0130, a lone surrogate, an astral character). Non-trivial: distinct inputs accepted or refused beyond the first field",
+             units=single_text_units, run_unit=run_single_text_unit, exhaustive=True),
+    SubCheck("nesting_bombs", None, "exhaustive: every nesting / repetition shape of every text grammar (24 descriptor, 17 miniscript, 7 path / key-origin, 8 URI, 5 word-list shapes) at n = 1000, 10^4 "
+             "(thorough: 10, 100, 400, 1000, 3000, 10^4; n lowered until the text fits 2^17 characters), unmutated, through every entry point that reads the grammar: returns or refuses within the contract under the "
+             "interpreter's default recursion budget; calls slower than 5 s are tagged; non-trivial: accepted, or n >= 400", units=bomb_units, run_unit=run_bomb_unit, exhaustive=True),
     SubCheck("from_dict", skippable("from_dict", check_json), "every from_dict and decode_* JSON entry point x the library's own to_dict() of generated valid objects (Tx, TxIn, TxOut, OutPoint, Witness, BlockHeader, Block, "
              "Psbt v0/v2 with every field, PsbtIn, PsbtOut, BIP32KeyOrigin, Network, and the PSBT sub-structures) under 1..4 stacked tree mutations at drawn paths: wrong type (None, bool, ints incl. 2^70 and 10^400, floats, "
              "str, list, dict, lists/dicts nested 50 and 900 deep (json.loads reads ~990 levels under default settings), 3000-element lists), missing key, extra key, string edits (odd length, non-hex, non-ASCII digits, 40x longer), integer edges, list edits, sibling swaps; "
-             "check_validity on/off. Non-trivial: accepted, or refused at a line no blind value (None, 0, '', [], {} ...) reaches", json_case, quick=4000, thorough=50000, max_buckets=10),
+             "check_validity on/off. Non-trivial: accepted, or refused at a line no blind value (None, 0, '', [], {} ...) reaches", json_case, quick=4000, thorough=50000, max_buckets=3),
     SubCheck("predicates", skippable("predicates", check_predicate), "every boolean verifier (the table of tests/bool_contract_test.py plus musig2.partial_sig_verify(_), borromean.verify, merkle_proof.verify with a real branch, "
              "BasicBlockFilter.match/match_any, taproot.check_output_pubkey, miniscript.reads_back, the nine script_pub_key.is_* classifiers, b32.is_segwit_prefixed, is_negative_bits, engine dsa_verify/ssa_verify/check_pub_key, "
              "is_on_curve) from a call that answers True, with one, two or all arguments replaced by generated values of the DECLARED type (bytes of every length, hex/non-hex/non-ASCII str, bytearray, memoryview; SEC keys "
              "valid, x>=p, off-curve, hybrid, the other root; xpub strings/objects under mutation; points with edge coordinates; Sig objects built unchecked with edge r/s; DER/base64 under structural mutation; ints in and out "
-             "of range; sequences of mismatched lengths), on both backends: the call returns a bool", CP.predicate_case, quick=5000, thorough=60000, max_buckets=10),
+             "of range; sequences of mismatched lengths), on both backends: the call returns a bool", CP.predicate_case, quick=5000, thorough=60000, max_buckets=4),
     SubCheck("predicate_spellings", None, "exhaustive: every predicate's True-answering call x every bytes/str argument respelled in each other form its declared type admits (bytearray, memoryview, hex str lower/upper/"
              "space-padded; ascii bytes/bytearray/memoryview for String) x both backends: the answer stays True", units=spelling_units, run_unit=run_spelling_unit, exhaustive=True),
     SubCheck("consumers", skippable("consumers", check_consumers), "objects that a parser ACCEPTED from (lightly) mutated bytes / text / JSON, check_validity on and off, are handed to every consumer: every public property and "
              "argument-less method of the object (twice where check_validity exists), repr/str/==; Tx: sig_hash.from_tx and engine.verify_input over first/last/out-of-range inputs with generated prevouts of 14 script types "
              "(right and short lists) and 13 hash types, verify_transaction with drawn flags, Psbt.from_tx; Block: assert_valid(regtest) and each assert_valid_*, BasicBlockFilter.from_block, contextual checks; Psbt: finalize, "
              "extract_tx, combine, prevouts, assert_signed, new_signers, ecdsa/taproot sig hashes, its tx through the engine; Descriptor: scripts/addresses at drawn indexes; Miniscript: script, satisfy; filters: match; p2p "
-             "payloads: to_message. Each call returns or refuses within the contract. Non-trivial: at least one object was accepted", consumer_case, quick=3000, thorough=40000, max_buckets=10),
-    SubCheck("entry_points", None, "exhaustive over the entry-point table (one unit per driven parse/decode/from_dict callable): a fixed campaign of 20-30 seeded cases x up to 12 mutation rounds each, reporting the acceptance rate "
+             "payloads: to_message. Each call returns or refuses within the contract. Non-trivial: at least one object was accepted", consumer_case, quick=3000, thorough=40000, max_buckets=4),
+    SubCheck("entry_points", None, "exhaustive over the entry-point table (one unit per driven parse/decode/from_dict callable): a fixed campaign of 12-20 seeded cases x up to 12 mutation rounds each, reporting the acceptance rate "
              "bucket and the number of distinct refusal lines reached; an entry point whose mutated inputs are accepted <1% or >99% is flagged for generator work (GENERATOR-FLAG tags)", units=ep_units, run_unit=run_ep_unit, exhaustive=True),
     SubCheck("not_driven", None, "the introspected entry points that no adapter drives, with the reason (a tag each)", units=not_driven_units,
              run_unit=lambda unit, col: col.bulk(1, 0, sample={"entry_point": unit, "reason": T.NOT_DRIVEN[unit]}, tags={f"not driven: {unit.replace('btclib.', '')}: {T.NOT_DRIVEN[unit]}": 1}), exhaustive=True),
 ]
+
+# Hypothesis runs gc.collect() at the start of every test function; in a forked worker that walk touches every object the parent
+# imported and copy-on-write faults the whole heap (tens of seconds of system time per call on a busy machine). Everything imported
+# so far is permanent: freeze it out of the collector's sight before the runner forks its pool.
+import gc  # noqa: E402
+
+gc.collect()
+gc.freeze()
